@@ -52,6 +52,10 @@ pub struct Case {
     pub backend: Backend,
     pub handles: u8,
     pub ops: Vec<SOp>,
+    /// git only: every commit is dated 200 days back (GIT_COMMITTER_DATE), so that the cleanup
+    /// after add_snapshot may remove the version files the snapshot covers
+    #[serde(default)]
+    pub aged: bool,
 }
 
 fn parent_sel() -> impl Strategy<Value = ParentSel> {
@@ -102,7 +106,7 @@ pub fn strategy(backend: Backend, max_ops: usize) -> BoxedStrategy<Case> {
         .boxed()
     };
     proptest::collection::vec(op, 1..=max_ops)
-        .prop_map(move |ops| Case { backend, handles: hmax, ops })
+        .prop_map(move |ops| Case { backend, handles: hmax, ops, aged: false })
         .boxed()
 }
 
@@ -284,6 +288,9 @@ impl Bk {
 pub struct ChainModel {
     pub versions: Vec<(Uuid, Uuid, Vec<u8>)>, // id, parent, bytes
     pub snapshots: Vec<(Uuid, Vec<u8>)>,
+    /// stored data is older than the retention age: versions up to a stored snapshot's version
+    /// may have been cleaned away
+    pub aged: bool,
 }
 
 impl ChainModel {
@@ -308,6 +315,14 @@ impl ChainModel {
     }
     pub fn child_of(&self, parent: Uuid) -> Option<&(Uuid, Uuid, Vec<u8>)> {
         self.versions.iter().find(|v| v.1 == parent)
+    }
+    /// Is `version` at or before the version of a stored snapshot?
+    pub fn covered(&self, version: Uuid) -> bool {
+        let pos = |v: Uuid| self.versions.iter().position(|x| x.0 == v);
+        match pos(version) {
+            Some(p) => self.snapshots.iter().any(|(sv, _)| pos(*sv).map(|sp| p <= sp).unwrap_or(false)),
+            None => false,
+        }
     }
 }
 
@@ -346,6 +361,8 @@ fn check_child(m: &ChainModel, parent: Uuid, got: &GetVersionResult, what: &str)
             "phantom-child",
             format!("{what}: get_child_version({parent}) returned version {version_id} but no accepted version has that parent"),
         )),
+        // cleaned away because a stored snapshot covers it and it is older than the retention age
+        (Some((id, ..)), GetVersionResult::NoSuchVersion) if m.aged && m.covered(*id) => Ok(()),
         (Some((id, ..)), GetVersionResult::NoSuchVersion) => Err(Failure::new(
             "child-missing",
             format!("{what}: get_child_version({parent}) says 'no such version' but {id} was accepted with that parent"),
@@ -353,11 +370,28 @@ fn check_child(m: &ChainModel, parent: Uuid, got: &GetVersionResult, what: &str)
     }
 }
 
+/// Date every git commit made by this process 200 days back (or stop doing so).  The variables
+/// are process-wide: a campaign is either entirely aged or not at all.
+pub fn set_git_dates(aged: bool) {
+    for k in ["GIT_COMMITTER_DATE", "GIT_AUTHOR_DATE"] {
+        if aged {
+            let now = std::time::SystemTime::now().duration_since(std::time::UNIX_EPOCH).map(|d| d.as_secs()).unwrap_or(0);
+            std::env::set_var(k, format!("{} +0000", now - 200 * 86_400));
+        } else {
+            std::env::remove_var(k);
+        }
+    }
+}
+
 pub fn check_case(c: &Case) -> CheckResult {
     let mut rep = CaseReport::default();
     let n = c.handles.max(1) as usize;
+    if c.aged {
+        set_git_dates(true);
+        rep.class("git commits older than the retention age");
+    }
     let mut bk = Bk::open(c.backend, n)?;
-    let mut m = ChainModel::default();
+    let mut m = ChainModel { aged: c.aged, ..Default::default() };
     let (mut rejections, mut reads_after_rejection, mut alternations, mut last_h) = (0, 0, 0, usize::MAX);
     let mut interesting_payload = false;
     for (oi, op) in c.ops.iter().enumerate() {
@@ -641,6 +675,19 @@ pub fn run(e: &Engine) {
             check_case,
         );
     }
+    // the git cleanup that follows add_snapshot only removes files committed more than 180 days
+    // ago: the same sequences with every commit dated 200 days back
+    e.set_worker_cap(4);
+    set_git_dates(true);
+    e.campaign(
+        "chain-GitLocal-aged",
+        "as chain-GitLocal with every commit dated 200 days back (GIT_COMMITTER_DATE), so that the cleanup after add_snapshot removes the version files the snapshot covers; a version at or before a stored snapshot's version may then be missing, every other accepted version must still be served",
+        e.tier.pick(24, 400),
+        move || strategy(Backend::GitLocal, 12).prop_map(|mut c| { c.aged = true; c }).boxed(),
+        |c| serde_json::json!({"backend": "GitLocal, commits dated 200 days back", "ops": c.ops.iter().map(|o| match o { SOp::AddVersion { h, parent, payload } => format!("AddVersion(h{h}, {parent:?}, {} bytes)", payload_bytes(payload).len()), other => format!("{other:?}") }).collect::<Vec<_>>()}),
+        check_case,
+    );
+    set_git_dates(false);
     for b in [Backend::Local2, Backend::ObjectStore, Backend::Http, Backend::GitLocal, Backend::GitRemote] {
         let git = matches!(b, Backend::GitLocal | Backend::GitRemote);
         e.set_shrink_iters(if git { 40 } else { 2000 });
